@@ -270,7 +270,7 @@ def check_reciprocity(case, ctx):
     strict = False
     for k in range(2, M + 1):
         e, s, w = got["exact"][k], got["strong"][k], got["weak"][k]
-        require(e <= s <= w, lambda: (
+        require(e <= s + float(TOL) and s <= w + float(TOL), lambda: (
             "size %d: exact %r <= strong %r <= weak %r does not hold (max_hyperedge_size=%d) on %s"
             % (k, e, s, w, M, _show(keys))), key="ordering")
         ee, ss, ww = exp["exact"][k], exp["strong"][k], exp["weak"][k]
